@@ -9,6 +9,16 @@ PROP = "C14"
 def make_tree(r, idx):
     bs = 4096
     t = {b"": Node("dir", 0o755)}
+    if idx % 4 == 3:
+        # no fragments, but xattrs: devices, directories, symlinks and block-aligned files only
+        t[b"dev"] = Node("dir", 0o755, xattrs={b"security.selinux": b"system_u:object_r:device_t:s0"})
+        t[b"dev/null"] = Node("cdev", 0o666, dev=(1, 3), xattrs={b"security.selinux": b"null_t"})
+        t[b"dev/sda"] = Node("bdev", 0o660, dev=(8, 0), xattrs={b"trusted.x": b"y"})
+        t[b"etc"] = Node("dir", 0o755, xattrs={b"user.label": b"etc"})
+        t[b"etc/mtab"] = Node("slink", 0o777, target=b"/proc/mounts")
+        if idx % 8 == 7:
+            t[b"etc/blob"] = Node("file", 0o644, data=[("rand", idx, bs * 2)], xattrs={b"user.a": b"b"})
+        return t
     if idx % 3 == 0:
         for i in range(6):
             t[b"f%d" % i] = Node("file", 0o644, data=[("rand", i, r.choice([100, 5000, 9000]))])
@@ -110,6 +120,12 @@ def run_input(arg):
                 if [v[1] for v in views] != [v[1] for v in full_views]:
                     oc.violate("killed:%s:partial-image-reads-differently" % tool, detail, {"partial.sqfs": data[:1 << 20]})
                     continue
+                bu = sqfsimg.parse(full, want_content=False).sb["bytes_used"]
+                if len(data) < bu or data[:bu] != full[:bu]:
+                    oc.violate("killed:%s:accepted-partial-image-is-not-the-complete-image" % tool,
+                               detail + "; first difference at byte %d of bytes_used %d (file has %d bytes)" % (
+                                   next((i for i in range(min(len(data), bu)) if data[i] != full[i]), min(len(data), bu)), bu, len(data)), {"partial.sqfs": data[:1 << 20]})
+                    continue
                 try:
                     m = sqfsimg.tree_model(sqfsimg.parse(data))
                     if m != full_model:
@@ -130,7 +146,7 @@ def main(tier):
                       "operation k for every k in 1..K (thorough: also after half of each pwrite); the file left behind is given to rdsquashfs -d, -l / and sqfs2tar: "
                       "all must fail, or all succeed with output, tree and contents identical to the completed image; distinct = (input, packer)")
     build.build("plain")
-    n = 8 if tier == "quick" else 30
+    n = 12 if tier == "quick" else 40
     items = [(i, t, tier) for i in range(n) for t in ("gensquashfs", "tar2sqfs")]
     for oc in core.pmap(run_input, items):
         rep.add(oc)
